@@ -653,7 +653,6 @@ class SwitchController(MpfController):
         removes that entry from the list.
         """
         del self._timed_switch_handler_delay[switch]
-        next_event_time = False
         current_time = self.machine.clock.get_time()
         for k in list(self._active_timed_switches[switch].keys()):
             if k <= current_time:  # change to generator?
@@ -668,12 +667,15 @@ class SwitchController(MpfController):
                             entry.state, entry.ms)
                     entry.callback()
                 del self._active_timed_switches[switch][k]
-            else:
-                if not next_event_time or next_event_time > k:
-                    next_event_time = k
 
         self.machine.events.process_event_queue()
-        if next_event_time:
+        # A callback may have registered timed handlers meanwhile. They are not in the snapshot above and
+        # they scheduled their own wake-up: drop that and schedule one wake-up from the live table.
+        if switch in self._timed_switch_handler_delay:
+            self.machine.clock.unschedule(self._timed_switch_handler_delay[switch][0])
+            del self._timed_switch_handler_delay[switch]
+        if self._active_timed_switches.get(switch):
+            next_event_time = min(self._active_timed_switches[switch].keys())
             handler = self.machine.clock.loop.call_at(
                 next_event_time,
                 partial(self._process_active_timed_switches, switch))
